@@ -1,6 +1,6 @@
 (* Proofs/ConcProofs.v — C11: lemmas about Model/Conc.v *)
 From Coq Require Import List NArith Bool Arith Lia.
-From Verif Require Import Base.Str Gen.GenConc Model.Conc.
+From Verif Require Import Base.Str Base.StrFacts Gen.GenConc Model.Conc.
 Import ListNotations.
 Open Scope N_scope.
 Arguments N.eqb : simpl never.
@@ -659,10 +659,8 @@ Proof.
   cbn [map length seq_sched trace_of seq_trace rmw].
   rewrite nth_error_mid, set_nth_mid. rewrite nth_error_mid, set_nth_mid.
   f_equal. f_equal.
-  replace (done ++ [] :: map (rmw false) ops) with ((done ++ [[]]) ++ map (rmw false) ops)
-    by (rewrite <- app_assoc; reflexivity).
-  replace (S (length done)) with (length (done ++ [[]])) by (rewrite app_length; cbn; lia).
-  apply IH.
+  specialize (IH (done ++ [[]])). rewrite <- app_assoc in IH. cbn [app] in IH.
+  rewrite app_length in IH. cbn [length] in IH. rewrite Nat.add_1_r in IH. exact IH.
 Qed.
 
 Lemma seq_trace_writes : forall ops i, writes_of (seq_trace i ops) = ops.
@@ -685,3 +683,251 @@ Proof.
   - intros t o' Hm. discriminate.
   - apply seq_trace_stale_free.
 Qed.
+
+(* ------------------------------------------------------------------ confinement to worktrees *)
+Lemma confined_disjoint : forall progs (wt : nat -> N),
+  (forall t p, nth_error progs t = Some p -> confined (wt t) p) ->
+  (forall t1 t2 p1 p2, t1 <> t2 -> nth_error progs t1 = Some p1 -> nth_error progs t2 = Some p2 ->
+                       wt t1 <> wt t2) ->
+  disjoint_progs progs.
+Proof.
+  intros progs wt C Dw t1 t2 p1 p2 s1 s2 o Hne H1 H2 I1 I2 T1 T2.
+  pose proof (C t1 p1 H1 s1 o I1 T1) as A. pose proof (C t2 p2 H2 s2 o I2 T2) as B.
+  rewrite A in B. inversion B. exact (Dw t1 t2 p1 p2 Hne H1 H2 H0).
+Qed.
+
+Lemma worktree_isolated : forall progs (wt : nat -> N) sched s0,
+  (forall t p, nth_error progs t = Some p -> blocks p = true /\ confined (wt t) p) ->
+  (forall t1 t2 p1 p2, t1 <> t2 -> nth_error progs t1 = Some p1 -> nth_error progs t2 = Some p2 ->
+                       wt t1 <> wt t2) ->
+  atomic_windows progs sched /\
+  forall o, run progs sched s0 o = run_serial (writes_of (trace_of progs sched)) s0 o.
+Proof.
+  intros progs wt sched s0 H Dw.
+  assert (A : atomic_windows progs sched).
+  { apply isolated_stale_free.
+    - apply (confined_disjoint progs wt); [| assumption]. intros t p Hp. apply (H t p Hp).
+    - intros p Hp. apply In_nth_error in Hp as [t Ht]. apply (H t p Ht). }
+  split; [assumption |]. apply serial_if_atomic. assumption.
+Qed.
+
+Lemma checkpoint_run_blocks : forall w b x, blocks (checkpoint_run w b x) = true.
+Proof.
+  intros. unfold checkpoint_run, append_checkpoint_prog, rmw.
+  destruct append_checkpoint_locked; cbn [app blocks]; rewrite ?obj_eqb_refl; reflexivity.
+Qed.
+
+Lemma checkpoint_run_confined : forall w b x, confined w (checkpoint_run w b x).
+Proof.
+  intros w b x st o Hin Ht. unfold checkpoint_run, append_checkpoint_prog, rmw in Hin.
+  destruct append_checkpoint_locked; cbn [app] in Hin;
+    repeat (destruct Hin as [<- | Hin]; [cbn [touches] in Ht; try discriminate; inversion Ht; reflexivity |]);
+    destruct Hin.
+Qed.
+
+(* two `git-ai checkpoint` runs in DIFFERENT worktrees: every interleaving is serialisable and
+   both checkpoints are kept *)
+Lemma checkpoints_in_two_worktrees : forall w1 b1 x1 w2 b2 x2 sched s0,
+  w1 <> w2 ->
+  let progs := [checkpoint_run w1 b1 x1; checkpoint_run w2 b2 x2] in
+  let final := run progs sched s0 in
+  let ops := writes_of (trace_of progs sched) in
+  (forall o, final o = run_serial ops s0 o) /\
+  cp_ids (final (OCp w1 b1)) = cp_ids (s0 (OCp w1 b1)) ++ log (OCp w1 b1) ops /\
+  cp_ids (final (OCp w2 b2)) = cp_ids (s0 (OCp w2 b2)) ++ log (OCp w2 b2) ops.
+Proof.
+  intros w1 b1 x1 w2 b2 x2 sched s0 Hne progs final ops.
+  destruct (worktree_isolated progs (fun t => match t with O => w1 | _ => w2 end) sched s0) as [A S].
+  - intros t p Hp. destruct t as [|[|t]]; cbn in Hp; inversion Hp; subst.
+    + split; [apply checkpoint_run_blocks | apply checkpoint_run_confined].
+    + split; [apply checkpoint_run_blocks | apply checkpoint_run_confined].
+    + destruct t; discriminate.
+  - intros t1 t2 p1 p2 Hn H1 H2. destruct t1 as [|[|t1]], t2 as [|[|t2]]; cbn in H1, H2;
+      try (destruct t1; discriminate); try (destruct t2; discriminate); try congruence.
+  - split; [exact S |]. destruct (atomic_loses_nothing progs sched s0 A) as [C _].
+    split; apply C.
+Qed.
+
+(* ------------------------------------------------------------------ where the journals live *)
+Lemma path_eqb_eq : forall a b, path_eqb a b = true <-> a = b.
+Proof.
+  induction a as [|x a IH]; destruct b as [|y b]; cbn [path_eqb]; split; intro H;
+    try reflexivity; try discriminate.
+  - apply andb_true_iff in H as [H1 H2]. apply str_eqb_eq in H1. apply IH in H2. subst. reflexivity.
+  - inversion H; subst. rewrite str_eqb_refl. cbn [andb]. apply IH. reflexivity.
+Qed.
+
+Lemma strip_prefix_app : forall p l, strip_prefix p (p ++ l) = Some l.
+Proof.
+  induction p as [|x p IH]; intro l; cbn [strip_prefix app]; [reflexivity |].
+  rewrite str_eqb_refl. apply IH.
+Qed.
+
+Lemma app_neq_self : forall (A : Type) (c : list A) x r, c ++ x :: r <> c.
+Proof.
+  intros A c x r H. apply (f_equal (@length A)) in H. rewrite app_length in H. cbn [length] in H. lia.
+Qed.
+
+Lemma ai_dir_main : forall c, ai_dir c c = c ++ [s_ai].
+Proof.
+  intro c. unfold ai_dir. replace (path_eqb c c) with true; [reflexivity |].
+  symmetry. apply path_eqb_eq. reflexivity.
+Qed.
+
+Lemma ai_dir_linked : forall c x rel,
+  ai_dir c (c ++ [s_worktrees] ++ x :: rel) = c ++ [s_ai; s_worktrees] ++ x :: rel.
+Proof.
+  intros c x rel. unfold ai_dir.
+  destruct (path_eqb (c ++ [s_worktrees] ++ x :: rel) c) eqn:E.
+  - apply path_eqb_eq in E. exfalso. cbn [app] in E. exact (app_neq_self _ _ _ _ E).
+  - rewrite app_assoc. rewrite strip_prefix_app. reflexivity.
+Qed.
+
+Lemma ai_dir_injective : forall c g1 g2,
+  std_gitdir c g1 -> std_gitdir c g2 -> ai_dir c g1 = ai_dir c g2 -> g1 = g2.
+Proof.
+  intros c g1 g2 [-> | [x1 [r1 ->]]] [-> | [x2 [r2 ->]]]; rewrite ?ai_dir_main, ?ai_dir_linked; intro H.
+  - reflexivity.
+  - apply app_inv_head in H. cbn [app] in H. discriminate.
+  - apply app_inv_head in H. cbn [app] in H. discriminate.
+  - apply app_inv_head in H. cbn [app] in H. inversion H; subst. reflexivity.
+Qed.
+
+Lemma app3_inj : forall (A : Type) (l1 l2 : list A) a1 b1 c1 a2 b2 c2,
+  l1 ++ [a1; b1; c1] = l2 ++ [a2; b2; c2] -> l1 = l2 /\ a1 = a2 /\ b1 = b2 /\ c1 = c2.
+Proof.
+  intros A l1 l2 a1 b1 c1 a2 b2 c2 H.
+  replace (l1 ++ [a1; b1; c1]) with (((l1 ++ [a1]) ++ [b1]) ++ [c1]) in H
+    by (rewrite <- !app_assoc; reflexivity).
+  replace (l2 ++ [a2; b2; c2]) with (((l2 ++ [a2]) ++ [b2]) ++ [c2]) in H
+    by (rewrite <- !app_assoc; reflexivity).
+  apply app_inj_tail in H as [H ->]. apply app_inj_tail in H as [H ->].
+  apply app_inj_tail in H as [-> ->]. auto.
+Qed.
+
+Lemma last3 : forall (A : Type) (l : list A) a b c, l ++ [a; b; c] = (l ++ [a; b]) ++ [c].
+Proof. intros. rewrite <- app_assoc. reflexivity. Qed.
+
+(* distinct journal objects of standard worktrees live in distinct files *)
+Lemma storage_file_injective : forall c gd o1 o2 p,
+  (forall w, std_gitdir c (gd w)) -> (forall w1 w2, gd w1 = gd w2 -> w1 = w2) ->
+  storage_file c gd o1 = Some p -> storage_file c gd o2 = Some p -> o1 = o2.
+Proof.
+  intros c gd o1 o2 p Std Inj H1 H2.
+  assert (K1 : s_checkpoints <> s_initial) by (vm_compute; discriminate).
+  assert (K2 : s_checkpoints <> s_rewrite_log) by (vm_compute; discriminate).
+  assert (K3 : s_initial <> s_rewrite_log) by (vm_compute; discriminate).
+  destruct o1 as [w1 b1 | w1 b1 | w1 |], o2 as [w2 b2 | w2 b2 | w2 |]; cbn [storage_file] in H1, H2;
+    try discriminate; inversion H1 as [E1]; inversion H2 as [E2]; rewrite <- E2 in E1; clear H1 H2 E2.
+  - apply app3_inj in E1 as [Ea [_ [Eb _]]]. inversion Eb.
+    apply ai_dir_injective in Ea; [| apply Std | apply Std]. apply Inj in Ea. subst. reflexivity.
+  - apply app3_inj in E1 as [_ [_ [_ Ek]]]. congruence.
+  - rewrite last3 in E1. apply app_inj_tail in E1 as [_ Ek]. congruence.
+  - apply app3_inj in E1 as [_ [_ [_ Ek]]]. congruence.
+  - apply app3_inj in E1 as [Ea [_ [Eb _]]]. inversion Eb.
+    apply ai_dir_injective in Ea; [| apply Std | apply Std]. apply Inj in Ea. subst. reflexivity.
+  - rewrite last3 in E1. apply app_inj_tail in E1 as [_ Ek]. congruence.
+  - rewrite last3 in E1. apply app_inj_tail in E1 as [_ Ek]. congruence.
+  - rewrite last3 in E1. apply app_inj_tail in E1 as [_ Ek]. congruence.
+  - apply app_inj_tail in E1 as [Ea _].
+    apply ai_dir_injective in Ea; [| apply Std | apply Std]. apply Inj in Ea. subst. reflexivity.
+Qed.
+
+(* ------------------------------------------------------------------ the known class is sound *)
+Lemma not_known_atomic : forall progs sched, ~ Known_C11 progs sched -> atomic_windows progs sched.
+Proof.
+  intros progs sched H. unfold Known_C11, atomic_windows in *.
+  destruct (stale_free (trace_of progs sched)); [reflexivity | exfalso; apply H; reflexivity].
+Qed.
+
+Lemma known_exact : forall progs sched s0,
+  ~ Known_C11 progs sched ->
+  let final := run progs sched s0 in
+  let ops := writes_of (trace_of progs sched) in
+  (forall o, final o = run_serial ops s0 o) /\
+  (forall w b, cp_ids (final (OCp w b)) = cp_ids (s0 (OCp w b)) ++ log (OCp w b) ops) /\
+  (forall w, firstn max_events (as_ev (final (ORw w)))
+             = firstn max_events (rev (log (ORw w) ops) ++ as_ev (s0 (ORw w)))) /\
+  (forall k n, In (NotesAdd k n) ops -> In k (map fst (as_notes (final ONotes)))).
+Proof.
+  intros progs sched s0 H final ops. apply not_known_atomic in H.
+  split; [apply serial_if_atomic; assumption | apply atomic_loses_nothing; assumption].
+Qed.
+
+(* ------------------------------------------------------------------ refutations on the programs of the unchanged tree *)
+Lemma lost_checkpoint : exists sched,
+  let tr := trace_of wit_cp_progs sched in
+  let final := run wit_cp_progs sched empty_store in
+  length tr = 4%nat /\ Known_C11 wit_cp_progs sched /\
+  log (OCp 0 7) (writes_of tr) = [1; 2] /\ cp_ids (final (OCp 0 7)) = [2].
+Proof. exists r1r2w1w2. vm_compute. auto. Qed.
+
+Lemma lost_event : exists sched,
+  let tr := trace_of wit_ev_progs sched in
+  let final := run wit_ev_progs sched empty_store in
+  length tr = 4%nat /\ Known_C11 wit_ev_progs sched /\
+  log (ORw 0) (writes_of tr) = [1; 2] /\ as_ev (final (ORw 0)) = [2].
+Proof. exists r1r2w1w2. vm_compute. auto. Qed.
+
+Lemma lost_note : exists sched,
+  let tr := trace_of wit_notes_progs sched in
+  let final := run wit_notes_progs sched empty_store in
+  length tr = 4%nat /\ Known_C11 wit_notes_progs sched /\
+  writes_of tr = [NotesAdd 101 11; NotesAdd 102 22] /\ as_notes (final ONotes) = [(102, 22)].
+Proof. exists r1r2w1w2. vm_compute. auto. Qed.
+
+(* commits in two different linked worktrees: the journals of the worktrees are intact, but the
+   note of the first commit is lost (the notes ref is shared) *)
+Definition sched_two_commits : list nat :=
+  ([0;0;0;0;0;0;0;0] ++ [1;1;1;1;1;1;1;1] ++ [0;1;0;1;0;1])%nat.
+
+Lemma lost_note_two_worktrees :
+  let progs := wit_commit_progs in
+  let sched := sched_two_commits in
+  let tr := trace_of progs sched in
+  let final := run progs sched empty_store in
+  length tr = 20%nat /\ Known_C11 progs sched /\
+  as_ev (final (ORw 1)) = [1] /\ as_ev (final (ORw 2)) = [2] /\
+  In (NotesAdd 101 11) (writes_of tr) /\ as_notes (final ONotes) = [(102, 22)].
+Proof. vm_compute. intuition. Qed.
+
+(* a checkpoint that arrives while post_commit refreshes the working log is lost *)
+Definition sched_commit_ckpt : list nat := ([0;0;0;0] ++ [1;1;1;1] ++ [0;0;0;0;0;0])%nat.
+
+Lemma lost_checkpoint_during_commit :
+  let progs := wit_commit_ckpt_progs in
+  let sched := sched_commit_ckpt in
+  let tr := trace_of progs sched in
+  let final := run progs sched empty_store in
+  Known_C11 progs sched /\ log (OCp 0 7) (writes_of tr) = [2] /\ cp_ids (final (OCp 0 7)) = [].
+Proof. vm_compute. auto. Qed.
+
+(* ------------------------------------------------------------------ examples *)
+(* all six interleavings of two appends: the known class holds exactly where a checkpoint is lost *)
+Lemma two_appends_exact :
+  length (interleavings wit_cp_progs) = 6%nat /\
+  forallb (known_iff_lost (OCp 0 7) wit_cp_progs) (interleavings wit_cp_progs) = true /\
+  forallb (known_iff_lost (ORw 0) wit_ev_progs) (interleavings wit_ev_progs) = true.
+Proof. vm_compute. auto. Qed.
+
+Lemma serial_example :
+  atomic_windows wit_cp_progs [0; 0; 1; 1]%nat /\
+  cp_ids (run wit_cp_progs [0; 0; 1; 1]%nat empty_store (OCp 0 7)) = [1; 2] /\
+  atomic_windows wit_cp_progs [1; 1; 0; 0]%nat /\
+  cp_ids (run wit_cp_progs [1; 1; 0; 0]%nat empty_store (OCp 0 7)) = [2; 1].
+Proof. vm_compute. auto. Qed.
+
+Lemma two_worktrees_example :
+  let sched := [0; 1; 0; 1; 0; 1; 0; 1]%nat in
+  length (trace_of wit_wt_progs sched) = 8%nat /\
+  cp_ids (run wit_wt_progs sched empty_store (OCp 1 7)) = [1] /\
+  cp_ids (run wit_wt_progs sched empty_store (OCp 2 7)) = [2].
+Proof. vm_compute. auto. Qed.
+
+Lemma paths_example :
+  let c := [[47]; [114]; s_ai] in   (* some common dir *)
+  ai_dir c c = c ++ [s_ai] /\
+  ai_dir c (c ++ [s_worktrees; [119; 49]]) = c ++ [s_ai; s_worktrees; [119; 49]] /\
+  (* a git dir outside <common>/worktrees falls back to its leaf name and may collide *)
+  ai_dir c [[120]; [119; 49]] = ai_dir c (c ++ [s_worktrees; [119; 49]]).
+Proof. vm_compute. auto. Qed.
